@@ -235,11 +235,19 @@ def corr_codecs(ck: Ck, cod: dict) -> None:
         # Coq: exact on the sample (both directions), fingerprint over the exhaustive stored sweep
         exprs, meta = [], []
         lit = '[' + ';'.join(str(pk(p)) for p in pixels) + ']'
-        exprs.append(f'map (fun v => pack (run (save_e codec_{name}) (unpack 4 v))) {lit}')
-        meta.append(('save', name, pixels, [pk(s) for s in stored_i]))
         lit2 = '[' + ';'.join(str(pk(s)) for s in stored_i) + ']'
-        exprs.append(f'map (fun v => pack (run (load_e codec_{name}) (unpack {bpp} v))) {lit2}')
-        meta.append(('load', name, stored_i, [pk(l) for l in loaded_i]))
+        if full_sweep:
+            exprs.append(f'map (fun v => pack (run (save_e codec_{name}) (unpack 4 v))) {lit}')
+            meta.append(('save', name, pixels, [pk(s) for s in stored_i]))
+            exprs.append(f'map (fun v => pack (run (load_e codec_{name}) (unpack {bpp} v))) {lit2}')
+            meta.append(('load', name, stored_i, [pk(l) for l in loaded_i]))
+        else:
+            # quick tier: the kernel evaluates every sample pixel but prints only a 61-bit fingerprint of the results
+            # (printing dominates the cost); a mismatch escalates to the exact comparison of the thorough tier
+            exprs.append(f'fp (map (fun v => pack (run (save_e codec_{name}) (unpack 4 v))) {lit})')
+            meta.append(('fp', name, len(pixels), py_fp(pk(s) for s in stored_i)))
+            exprs.append(f'fp (map (fun v => pack (run (load_e codec_{name}) (unpack {bpp} v))) {lit2})')
+            meta.append(('fp', name, len(stored_i), py_fp(pk(l) for l in loaded_i)))
         if bpp == 1 or (bpp == 2 and full_sweep):
             exprs.append(f'fp (map (fun d => pack (run (load_e codec_{name}) d)) all{bpp})')
             meta.append(('fp', name, None, py_fp(pk(l) for l in load_all)))
@@ -275,9 +283,11 @@ def corr_codecs(ck: Ck, cod: dict) -> None:
         for (kind, name, inp, exp), v in zip(metas, vals):
             if kind == 'fp':
                 n_fp += 1
-                ck.count('coq_exhaustive_stored_sweeps')
+                ck.count('coq_fingerprinted_sweeps')
+                if inp:
+                    n_exact += inp
                 if int(v) != exp:
-                    bad.append({'format': name, 'what': 'fingerprint of load over all stored values differs', 'coq': v, 'impl': exp})
+                    bad.append({'format': name, 'what': 'fingerprint of the kernel evaluation differs from the implementation', 'coq': v, 'impl': exp})
                 continue
             got = common.parse_coq_N_list(v)
             n_exact += len(got)
@@ -287,7 +297,7 @@ def corr_codecs(ck: Ck, cod: dict) -> None:
                             'coq': got[i] if i is not None else len(got), 'impl': exp[i] if i is not None else len(exp)})
     ck.count('coq_codec_evaluations', n_exact)
     ck.obligation('correspondence:coq-codecs', not bad,
-                  f'{n_exact} save/load evaluations of Gen/PixelCodecs_gen.v by vm_compute equal the Python codecs exactly; '
+                  f'{n_exact} save/load evaluations of Gen/PixelCodecs_gen.v by vm_compute equal the Python codecs (' + ('value by value' if full_sweep else 'by 61-bit fingerprint per format and direction; value by value in the thorough tier') + '); '
                   f'{n_fp} stored-value sweeps (all 2^8 values; ' + ('all 2^16' if full_sweep else 'a random 2^13 of the 2^16') + f' values of the 2-byte formats) agree by 61-bit fingerprint: {len(bad)} disagreements')
     if bad:
         ck.tie_broken.append('correspondence generated codecs vs _py_vtf_readwrite')
@@ -1100,47 +1110,63 @@ def spec_history(levels: list[bytes], ops: list[list]) -> list[tuple[str, bytes]
     """The property restated directly (independent of the Coq model and of the source): per level (why, pixels) that
     save() must write.  A level keeps the file's pixels until something writes to it; reading never changes anything;
     rescale_from/compute_mipmaps never replace pixels that are still only in the file; a cleared level is regenerated
-    from the level above AS WRITTEN; closing the file (__exit__) loses what was not read."""
+    from the level above AS WRITTEN; closing the file (__exit__) loses what was not read.
+    Whether compute_mipmaps()/rescale_from() happen to READ a level from the file as a side effect is not part of the
+    property, but an explicit rescale_from() of such a level and __exit__ behave differently afterwards: from the first
+    level where that matters on, the history is not judged ('unjudged')."""
     n = len(levels)
     dims = [(HIST_W >> m, HIST_H >> m) for m in range(n)]
     blank = [bytes((0, 0, 0, 255)) * (w * h) for w, h in dims]
     src = [True] * n
+    side = [False] * n          # the file source was consumed only as a side effect of another operation
     data: list[bytes | None] = [None] * n
+    unjudged = n
 
     def view(m):
         return levels[m] if src[m] else (data[m] if data[m] is not None else blank[m])
 
-    def load(m):
+    def load(m, by_user):
+        nonlocal unjudged
+        if src[m] and not by_user:
+            side[m] = True
+        if by_user:
+            side[m] = False
         data[m] = view(m)
         src[m] = False
 
     def rescale(m):
-        load(m - 1)
+        load(m - 1, False)
         data[m] = ref_downscale(data[m - 1], *dims[m - 1], *dims[m], 4)
 
     for op in ops:
         kind = op[0]
         if kind == 'compute':
-            load(0)
+            load(0, False)
             for m in range(1, n):
                 if data[m] is None:
                     rescale(m)
         elif kind == 'exit':
+            if any(side):
+                unjudged = min(unjudged, side.index(True))
             src = [False] * n
         elif kind == 'load':
-            load(op[1])
+            load(op[1], True)
         elif kind == 'clear':
-            data[op[1]], src[op[1]] = None, False
+            data[op[1]], src[op[1]], side[op[1]] = None, False, False
         elif kind in ('fill', 'copy'):
-            data[op[1]], src[op[1]] = _hist_new_data(op, *dims[op[1]]), False
+            data[op[1]], src[op[1]], side[op[1]] = _hist_new_data(op, *dims[op[1]]), False, False
         elif kind == 'set':
-            load(op[1])
+            load(op[1], True)
             data[op[1]] = _set_px(data[op[1]])
         elif kind == 'rescale' and op[1] >= 1:
+            if side[op[1]]:
+                unjudged = min(unjudged, op[1])
             rescale(op[1])
     out: list[tuple[str, bytes]] = []
     for m in range(n):
-        if src[m]:
+        if m >= unjudged:
+            out.append(('unjudged', b''))
+        elif src[m]:
             out.append(('file', levels[m]))
         elif data[m] is not None:
             out.append(('pixels', data[m]))
@@ -1164,6 +1190,8 @@ def check_history(base: bytes, n: int, levels: list[bytes], ops: list[list]) -> 
         return [(f'frame-history-raises-{type(e).__name__}', f'lazy read, {ops}, save: {type(e).__name__}: {e}')]
     probs = []
     for m, ((why, exp), g) in enumerate(zip(spec_history(levels, ops), got)):
+        if why == 'unjudged':
+            break
         if g != exp:
             probs.append((HIST_KEYS[why], f'lazy read of a {HIST_W}x{HIST_H} file, then {ops}, then save: level {m} must be written from '
                                           f'"{why}" but other pixels were written'))
